@@ -260,7 +260,12 @@ def outcome(conn, req):
     conn.send(req)
     oneway = bool(req.get("oneway"))
     if oneway:
-        conn.send(GETINFO)
+        try:
+            conn.send(GETINFO)
+        except OSError:
+            # the service already closed the connection (failed validation of a oneway call):
+            # whatever it wrote before closing is still readable below
+            pass
     got = []
     while True:
         try:
